@@ -186,6 +186,11 @@ func checkSecretCase(c secretCase) (rule, sig, msg string) {
 		p.Elem().Set(val)
 		payload = p.Interface()
 	}
+	return checkSecretPayload(c, payload, can, shapeClass(c.Shape), func() string { return describeShape(c.Shape) })
+}
+
+// checkSecretPayload places the payload (whose secret and plain canaries are listed in can) in a plan and looks at one surface.
+func checkSecretPayload(c secretCase, payload any, can *canaries, class string, descr func() string) (rule, sig, msg string) {
 	t0 := time.Date(2024, 1, 2, 3, 4, 5, 0, time.UTC)
 	st := func() *workflow.State {
 		return &workflow.State{Status: workflow.Completed, Start: t0, End: t0.Add(time.Second)}
@@ -244,10 +249,9 @@ func checkSecretCase(c secretCase) (rule, sig, msg string) {
 		var err error
 		files, err = reports.Render(ctx, plan)
 		if err != nil {
-			return "render-failed", shapeClass(c.Shape), fmt.Sprintf("%s: %v", c, err)
+			return "render-failed", class, fmt.Sprintf("%s: %v", c, err)
 		}
 	}
-	class := shapeClass(c.Shape)
 	if files != nil {
 		if s, where := scanFS(files, can.secret); s != "" {
 			return "secret-in-rendered-report", "render", fmt.Sprintf("%s: the secure-tagged value %s appears in %s of the rendered report", c, s, where)
@@ -255,12 +259,12 @@ func checkSecretCase(c secretCase) (rule, sig, msg string) {
 	} else {
 		for _, s := range can.secret {
 			if strings.Contains(out, s) {
-				return "secret-in-clone", class, fmt.Sprintf("%s: the secure-tagged value %s is still in the clone (type %s)", c, s, describeShape(c.Shape))
+				return "secret-in-clone", class, fmt.Sprintf("%s: the secure-tagged value %s is still in the clone (type %s)", c, s, descr())
 			}
 		}
 		for _, s := range can.plain {
 			if !strings.Contains(out, s) {
-				return "untagged-data-lost-in-clone", class, fmt.Sprintf("%s: the untagged value %s is missing from the clone (type %s)", c, s, describeShape(c.Shape))
+				return "untagged-data-lost-in-clone", class, fmt.Sprintf("%s: the untagged value %s is missing from the clone (type %s)", c, s, descr())
 			}
 		}
 	}
@@ -591,6 +595,17 @@ func enumC17(env *EnumEnv, it *WorkItem) *EnumResult {
 			}
 		}
 	}
+	g.phase = "recursive types"
+	for _, c := range recursiveCases() {
+		idx++
+		if idx%it.NShards != it.Shard || g.over() {
+			continue
+		}
+		res.Evaluations++
+		res.Distinct++
+		r, s, m := checkRecursiveCase(c)
+		report(r, s, m, map[string]any{"recursive": c})
+	}
 	g.phase = "registry: embedded structs"
 	for _, e := range embeddedProtos {
 		for _, inResp := range []bool{false, true} {
@@ -618,15 +633,17 @@ func init() {
 		Rule: "request/response TYPES are built at run time with reflect.StructOf/PointerTo/SliceOf/MapOf from the grammar T ::= string | struct{At time.Time; X T; Y T secure; Z string; W T ignore} | *T | []T | map[string]T | any(T) (an ignore-tagged container is walked like an untagged one): ALL shapes up to 3 (4) constructors deep below a top struct field, a unique canary string in every leaf " +
 			"(secret iff some enclosing field is tagged), handed over by value and by pointer, placed as sequence-action request, check-action request, attempt response of a sequence action and of a check action; surfaces: clone.Plan/Block/Checks/Sequence/Action (keep-state, default secrets), default clone.Plan, reports.Render (every file of the returned file system); " +
 			"oracle: byte search for every secret canary (must be absent) and every plain canary (must be present in clones), canonical dump of the original plan before/after; registry: secret-looking and harmless field names x {no tag, secure, ignore} x nesting through structs and pointers up to depth 3 x request/response x value/pointer/zero prototype, each followed on the same registry by the same plugin again, by another plugin containing the same struct type and (fresh registry) preceded by an unrelated refusal; secret-looking fields promoted from embedded structs (unexported type, pointer, exported type, below a struct field, tagged, harmless); " +
+			"statically declared RECURSIVE types (self-recursive node, two mutually recursive structs entered through a wrapper field / through the other struct / bare behind the interface, secure field before or after the field that closes the cycle, a cycle of three with the secret in the last, a struct on the cycle without a secret of its own, slices of values, maps and interface fields on the cycle) filled three levels deep, every placement and surface, each family in a fresh type identity so that whatever a scrubber remembers per type is first asked through that entry; " +
 			"distinct_nontrivial = cases other than the flat string type",
 		Assumptions: []string{"Go arrays are excluded as documented", "the registry is only required to look through structs and pointers to structs"},
 		Items:       func(tier string) []WorkItem { return shardItems("C17", 16) },
 		Enum:        enumC17,
 		ReplayInput: func(env *EnumEnv, raw []byte) []*Violation {
 			var in struct {
-				Secret   *secretCase   `json:"secret"`
-				Registry *registryCase `json:"registry"`
-				Embedded *embeddedCase `json:"embedded"`
+				Secret    *secretCase   `json:"secret"`
+				Registry  *registryCase `json:"registry"`
+				Embedded  *embeddedCase `json:"embedded"`
+				Recursive *secretCase   `json:"recursive"`
 			}
 			if err := jsonUnmarshal(raw, &in); err != nil {
 				return []*Violation{{Property: "C17", Rule: "bad-input", Msg: err.Error()}}
@@ -639,6 +656,8 @@ func init() {
 				r, s, m = checkRegistryCase(*in.Registry)
 			case in.Embedded != nil:
 				r, s, m = checkEmbeddedCase(*in.Embedded)
+			case in.Recursive != nil:
+				r, s, m = checkRecursiveCase(*in.Recursive)
 			}
 			if r != "" {
 				return []*Violation{{Property: "C17", Rule: r, Signature: s, Msg: m}}
